@@ -97,6 +97,12 @@ inductive RExpr where
   | cast (e : RExpr) (t : VType)                             -- `e::t`
   | inList (isNot : Bool) (e : RExpr) (v : RExpr) (vs : List RExpr)   -- `e IN (v, vs…)`: at least one element
   | call (f : List Char) (args : List RExpr)                 -- `f(args…)`, an atom of the operator grammar
+  | star                                                     -- `*` (as in `count(*)`)
+  | countDistinct (f : List Char) (a : RExpr) (as : List RExpr)   -- `count(DISTINCT a, as…)`, `f` = the spelling of count
+  | array (sp : List Char) (args : List RExpr)               -- `array[args…]`, `sp` = the spelling of array
+  | extract (part : List Char) (e : RExpr)                   -- `EXTRACT(part FROM e)`
+  | tuple (a b : RExpr) (more : List RExpr)                  -- `(a, b, more…)`: at least two elements
+  | case (c r : RExpr) (more : List (RExpr × RExpr)) (els : RExpr)  -- `CASE WHEN c THEN r (WHEN … THEN …)… ELSE els END`
   deriving Repr, Inhabited
 
 namespace RExpr
@@ -150,6 +156,17 @@ def pr (T : PrecTables) : Int → RExpr → List Tok
     wrap (decide (tokPrec T (inTok n) < ctx))
       (pr T (tokPrec T (inTok n)) e ++ [inTok n, .lp] ++ pr T 0 v ++ prTail T vs ++ [.rp])
   | _, .call f args => [.ident f, .lp] ++ prArgs T args ++ [.rp]
+  | _, .star => [.op (.single '*')]
+  | _, .countDistinct f a as => [.ident f, .lp, .kw .distinct] ++ pr T 0 a ++ prTail T as ++ [.rp]
+  | _, .array sp args => [.ident sp, .lsq] ++ prArgs T args ++ [.rsq]
+  | _, .extract part e => [.kw .extract, .lp, .ident part, .kw .from] ++ pr T 0 e ++ [.rp]
+  | _, .tuple a b more => [.lp] ++ pr T 0 a ++ [.comma] ++ pr T 0 b ++ prTail T more ++ [.rp]
+  | _, .case c r more els =>
+    [.kw .case, .kw .when] ++ pr T 0 c ++ [.kw .then] ++ pr T 0 r ++ prClauses T more ++ [.kw .else] ++ pr T 0 els ++ [.kw .end]
+/-- `WHEN c₁ THEN r₁ WHEN c₂ THEN r₂ …` -/
+def prClauses (T : PrecTables) : List (RExpr × RExpr) → List Tok
+  | [] => []
+  | (c, r) :: rest => [.kw .when] ++ pr T 0 c ++ [.kw .then] ++ pr T 0 r ++ prClauses T rest
 /-- `, e₁ , e₂ …` -/
 def prTail (T : PrecTables) : List RExpr → List Tok
   | [] => []
@@ -173,9 +190,18 @@ def parenAll : RExpr → RExpr
   | .cast e t => .paren (.cast (parenAll e) t)
   | .inList n e v vs => .paren (.inList n (parenAll e) (parenAll v) (parenAlls vs))
   | .call f args => .call f (parenAlls args)
+  | .star => .star
+  | .countDistinct f a as => .countDistinct f (parenAll a) (parenAlls as)
+  | .array sp args => .array sp (parenAlls args)
+  | .extract part e => .extract part (parenAll e)
+  | .tuple a b more => .tuple (parenAll a) (parenAll b) (parenAlls more)
+  | .case c r more els => .case (parenAll c) (parenAll r) (parenAllClauses more) (parenAll els)
 def parenAlls : List RExpr → List RExpr
   | [] => []
   | e :: es => parenAll e :: parenAlls es
+def parenAllClauses : List (RExpr × RExpr) → List (RExpr × RExpr)
+  | [] => []
+  | (c, r) :: rest => (parenAll c, parenAll r) :: parenAllClauses rest
 end
 
 /-- minimal parentheses under the reference grammar -/
@@ -202,15 +228,25 @@ def embed : RExpr → PExpr
   | .cast e t => .cast default (embed e) t
   | .inList n e v vs => .inList default n (embed e) (embed v :: embeds vs)
   | .call f args => .call default f (embeds args) (if lowerChars f = "count".toList then some false else none)
+  | .star => .wildcard default
+  | .countDistinct f a as => .call default f (embed a :: embeds as) (some true)
+  | .array _ args => .call default "create_array".toList (embeds args) none
+  | .extract part e => .call default ("timestamp_extract_".toList ++ lowerChars part) [embed e] none
+  | .tuple a b more => .tuple default (embed a :: embed b :: embeds more)
+  | .case c r more els => .case default ((embed c, embed r) :: embedClauses more) (embed els)
 def embeds : List RExpr → List PExpr
   | [] => []
   | e :: es => embed e :: embeds es
+def embedClauses : List (RExpr × RExpr) → List (PExpr × PExpr)
+  | [] => []
+  | (c, r) :: rest => (embed c, embed r) :: embedClauses rest
 end
 
 mutual
 /-- Well-formedness of an expression for a table: binary symbols are operators of the table other than the
 qualified-name dot; cast types are scalar; no column (or part of a qualified name) is called `array` in any letter
-case (`array[` is the array constructor). -/
+case (`array[` is the array constructor); `count(DISTINCT …)` is spelled with a name that lower-cases to `count`,
+the array constructor with one that lower-cases to `array`. -/
 def WF (T : PrecTables) : RExpr → Prop
   | .lit _ => True
   | .col x path => lowerChars x ≠ "array".toList ∧ ∀ p ∈ path, lowerChars p ≠ "array".toList
@@ -222,9 +258,18 @@ def WF (T : PrecTables) : RExpr → Prop
   | .cast e t => (∀ u, t ≠ .array u) ∧ WF T e
   | .inList _ e v vs => WF T e ∧ WF T v ∧ WFs T vs
   | .call _ args => WFs T args
+  | .star => True
+  | .countDistinct f a as => lowerChars f = "count".toList ∧ WF T a ∧ WFs T as
+  | .array sp args => lowerChars sp = "array".toList ∧ WFs T args
+  | .extract _ e => WF T e
+  | .tuple a b more => WF T a ∧ WF T b ∧ WFs T more
+  | .case c r more els => WF T c ∧ WF T r ∧ WFClauses T more ∧ WF T els
 def WFs (T : PrecTables) : List RExpr → Prop
   | [] => True
   | e :: es => WF T e ∧ WFs T es
+def WFClauses (T : PrecTables) : List (RExpr × RExpr) → Prop
+  | [] => True
+  | (c, r) :: rest => WF T c ∧ WF T r ∧ WFClauses T rest
 end
 
 end RExpr
